@@ -69,6 +69,27 @@ def run_variant(v):
         shutil.rmtree(d, ignore_errors=True)
 
 
+def run_seed(seed_dir):
+    """apply an independently seeded breaking change (seeded/<ID>-<k>/patch.diff) to a scratch copy; the check of its
+    property must report a violation. Returns dict(name, ok, got) ; a patch that no longer applies is reported as stale."""
+    name = os.path.basename(seed_dir.rstrip("/"))
+    pid = name.split("-")[0]
+    d = tempfile.mkdtemp(prefix="vstatic-seed-")
+    try:
+        def ignore(path, names):
+            return [n for n in names if n == "__pycache__" or n.endswith((".so", ".pyc"))]
+        shutil.copytree(os.path.join(REPO, "matid"), os.path.join(d, "matid"), ignore=ignore)
+        r = subprocess.run(["git", "apply", "--include=matid/*", os.path.join(seed_dir, "patch.diff")], cwd=d, capture_output=True, text=True)
+        if r.returncode != 0:
+            return dict(name=name, pid=pid, ok=None, got="stale: patch does not apply to the current tree")
+        env = dict(os.environ, VERIF_REPO=d, VERIF_NO_EVIDENCE="1", PYTHONDONTWRITEBYTECODE="1")
+        c = subprocess.run([os.path.join(VERIF, "check"), pid, "--tier", "quick"], capture_output=True, text=True, env=env, cwd=VERIF)
+        fired = sorted({l.split()[1] for l in c.stdout.splitlines() if l.strip().startswith("violated ")})
+        return dict(name=name, pid=pid, ok=c.returncode == 1, got=f"exit {c.returncode}; fired {fired}")
+    finally:
+        shutil.rmtree(d, ignore_errors=True)
+
+
 def main():
     ap = argparse.ArgumentParser()
     ap.add_argument("--jobs", type=int, default=min(16, os.cpu_count() or 4))
